@@ -766,6 +766,38 @@ func (x *Exec) binop(fr *Frame, st *State, t *ssa.BinOp) Val {
 				}
 			}
 		}
+		// x | (1 << s) with x >= 0 and a symbolic shift amount sets one bit (or none when the shifted
+		// one falls off the operand width, in which case the shifted term is 0): exact by cases
+		for side := 0; side < 2; side++ {
+			sv, stt, ot := t.Y, B, A
+			if side == 1 {
+				sv, stt, ot = t.X, A, B
+			}
+			if amt, ok := shlOfOne(sv); ok {
+				if _, isLit := litVal(stt); isLit {
+					continue
+				}
+				sh := x.val(fr, st, amt).t()
+				r := x.define("bor", "Int", "(bor "+A+" "+B+")")
+				x.assume(st, bitAxioms("or", r, A, B, rt))
+				bitClear := "(= (mod (div " + ot + " (pow2 " + sh + ")) 2) 0)"
+				return mk(smtIte(smtAnd("(>= "+ot+" 0)", "(>= "+sh+" 0)", "(<= "+sh+" 62)"), smtIte(bitClear, "(+ "+ot+" "+stt+")", ot), r))
+			}
+		}
+		// x | 2^a with x >= 0 sets one bit: exact by cases on that bit of x
+		for side := 0; side < 2; side++ {
+			cv, ct, ot := t.Y, B, A
+			if side == 1 {
+				cv, ct, ot = t.X, A, B
+			}
+			if n, ok := termConstBig(cv, ct); ok && n.Sign() > 0 && n.BitLen() <= 62 && int(n.TrailingZeroBits()) == n.BitLen()-1 {
+				p2 := n.String()
+				r := x.define("bor", "Int", "(bor "+A+" "+B+")")
+				x.assume(st, bitAxioms("or", r, A, B, rt))
+				bitClear := "(= (mod (div " + ot + " " + p2 + ") 2) 0)"
+				return mk(smtIte("(>= "+ot+" 0)", smtIte(bitClear, "(+ "+ot+" "+p2+")", ot), r))
+			}
+		}
 		r := x.define("bor", "Int", "(bor "+A+" "+B+")")
 		x.assume(st, bitAxioms("or", r, A, B, rt))
 		return mk(r)
@@ -782,6 +814,31 @@ func (x *Exec) binop(fr *Frame, st *State, t *ssa.BinOp) Val {
 	fv, f := x.freshVal("bin", rt)
 	x.assume(st, f)
 	return fv
+}
+
+// shlOfOne: is v defined as (1 << amount), possibly behind integer conversions? Returns the amount.
+func shlOfOne(v ssa.Value) (ssa.Value, bool) {
+	for {
+		c, ok := v.(*ssa.Convert)
+		if !ok {
+			break
+		}
+		// only widening or same-width conversions keep the value
+		if w1, _, ok1 := intInfo(c.X.Type()); !ok1 {
+			return nil, false
+		} else if w2, _, ok2 := intInfo(c.Type()); !ok2 || w2 < w1 {
+			return nil, false
+		}
+		v = c.X
+	}
+	b, ok := v.(*ssa.BinOp)
+	if !ok || b.Op != token.SHL {
+		return nil, false
+	}
+	if n, ok := constInt(b.X); ok && n == 1 {
+		return b.Y, true
+	}
+	return nil, false
 }
 
 // shlConst: is v defined as (something << const) or a load of a cell... only direct SSA defs.
@@ -848,6 +905,13 @@ func bitAxioms(op, r, a, b string, t types.Type) string {
 			smtImp(eq(a, "0"), eq(r, b)), smtImp(eq(b, "0"), eq(r, a)), smtImp(eq(a, b), eq(r, a))}
 		if signed {
 			fs = append(fs, smtImp(eq(a, m1), eq(r, m1)), smtImp(eq(b, m1), eq(r, m1)))
+		}
+		// disjoint operands at a byte boundary (register assembly: hi<<8k | lo): a multiple of 2^k
+		// or-ed with a value below 2^k is their sum
+		for _, k := range []int{8, 16, 24, 32} {
+			p := pow2str(k)
+			fs = append(fs, smtImp(smtAnd(nonneg, "(= (mod "+a+" "+p+") 0)", "(< "+b+" "+p+")"), eq(r, "(+ "+a+" "+b+")")),
+				smtImp(smtAnd(nonneg, "(= (mod "+b+" "+p+") 0)", "(< "+a+" "+p+")"), eq(r, "(+ "+a+" "+b+")")))
 		}
 		return smtAnd(fs...)
 	case "xor":
